@@ -72,6 +72,10 @@ class Gen:
     def g_any(self, d): return Node("any", ["any"], "Any")
     def g_literal(self, d):
         vals = self.rnd.sample([0, 1, 2, "a", "b", True, None, 1.5], self.rnd.randint(1, 3))
+        # typing compares Literal[1, True] and Literal[True, 1] equal, and `Set[...]` / `Tuple[...]` subscription is cached
+        # on equality: the second spelling would silently denote the first object.  One spelling only: 1 before True.
+        ints = [i for i, v in enumerate(vals) if (type(v) is int and v == 1) or v is True]
+        if len(ints) == 2 and vals[ints[0]] is True: vals[ints[0]], vals[ints[1]] = vals[ints[1]], vals[ints[0]]
         return Node("literal", ["literal", [lit_proto(v) for v in vals]], f"Literal[{', '.join(map(repr, vals))}]", vals=vals)
     def g_enum(self, d):
         n = self.pool.fresh("E")
